@@ -103,12 +103,29 @@ func (e *Engine) termLayout(t *Term, roles map[string]string, depth int) ([]kseg
 		return []kseg{{"prefix", strings.TrimPrefix(t.Name, "types."), ""}}, nil
 	case t.Op == "const" && t.Name == "nil":
 		return nil, nil
+	case t.Op == "opaque" && strings.HasPrefix(t.Name, "make@"):
+		// make([]byte, 0, n): an empty key that is grown by the appends (a pre-sized buffer); a non-zero length would
+		// put zero bytes in front
+		if ms, ok := t.Instr.(*ssa.MakeSlice); ok {
+			if c, ok := ms.Len.(*ssa.Const); ok && c.Value != nil && c.Value.String() == "0" {
+				return nil, nil
+			}
+		}
+		return nil, fmt.Errorf("key buffer made with a non-zero length")
 	case t.IsCall("builtin.append") && len(t.Args) == 2:
 		base, err := e.termLayout(t.Args[0], roles, depth)
 		if err != nil {
 			return nil, err
 		}
 		a := t.Args[1]
+		// appending a whole key (a prefix variable or the result of another key constructor)
+		if (a.Op == "global" && strings.HasPrefix(a.Name, "types.")) || (a.Op == "call" && strings.HasPrefix(a.Name, "types.Get")) {
+			more, err := e.termLayout(a, roles, depth)
+			if err != nil {
+				return nil, err
+			}
+			return append(base, more...), nil
+		}
 		var s kseg
 		if a.IsCall("address.MustLengthPrefix") {
 			s, err = e.contentSeg(a.Args[0], roles, true)
@@ -513,10 +530,22 @@ func (pe *parserEval) describeCall(c *ssa.Call, depth int) string {
 		return "lp(" + pe.describe(c.Call.Args[0], depth+1) + ")"
 	case "builtin.append":
 		base := c.Call.Args[0]
-		var b string
-		if u, ok := base.(*ssa.UnOp); ok {
-			if g, ok := u.X.(*ssa.Global); ok {
-				b = "prefix(" + g.Name() + ")"
+		prefixOf := func(v ssa.Value) string {
+			if u, ok := v.(*ssa.UnOp); ok {
+				if g, ok := u.X.(*ssa.Global); ok {
+					return "prefix(" + g.Name() + ")"
+				}
+			}
+			return ""
+		}
+		b := prefixOf(base)
+		if ms, ok := base.(*ssa.MakeSlice); ok && b == "" {
+			// a pre-sized empty buffer: the key starts with what is appended to it
+			if cst, ok := ms.Len.(*ssa.Const); ok && cst.Value != nil && cst.Value.String() == "0" {
+				if p := prefixOf(c.Call.Args[1]); p != "" {
+					return p
+				}
+				return pe.describe(c.Call.Args[1], depth+1)
 			}
 		}
 		if b == "" {
